@@ -15,7 +15,7 @@ theorem parent_inside {Z : Forest} {c : Nat} {t : HTree} {q : Nat} {vq : Value} 
     (hin : w.handle ∈ handles t) (hne : w.handle ≠ c) : q ∈ handles t := by
   have nd := sq.nd
   have htc : t.handle = c := (findList?_some Z.roots t hgc).1
-  have ndt : (handles t).Nodup := (findList?_sublist Z.roots t hgc).nodup nd
+  have ndt : (handles t).Nodup := (fs_findList?_sublist Z.roots t hgc).nodup nd
   have hsome := find?_isSome_of_mem t hin
   cases hf : find? w.handle t with
   | none => rw [hf] at hsome; cases hsome
